@@ -918,7 +918,7 @@ func writeEvidence(w *vc.World, cfg *PropCfg, results []*vc.FnResult, groups map
 		"go/packages + go/ssa (x/tools v0.29.0) give a faithful SSA of /repo's working tree (linux/amd64, tag verif)",
 		"govc itself: SSA symbolic executor, SMT encoding, contract parser",
 		"SMT solvers cvc5 1.0.x, z3 5.1.0, z3 4.8.12 (first definite answer; thorough tier cross-checks)",
-		"pointer/slice parameters denote pairwise distinct objects (separation default); lengths <= 2^48; int is 64 bits",
+		"pointer/slice parameters denote pairwise distinct objects (separation default); lengths of inputs and of results of abstracted calls <= 2^40 (allocations may ask for up to 2^48 elements); int is 64 bits",
 		"append results are modelled as not aliasing older views of a reallocated array")
 	if cfg.Note != "" {
 		asl = append(asl, cfg.Note)
